@@ -745,5 +745,34 @@ def r15_17(ctx):
     return r
 
 
+def r15_18(ctx):
+    """'one- and two-byte header extensions': RFC 8285 4.3 - the two-byte form is announced by 0x100 in the upper 12 bits of
+    the profile word, the low 4 bits are application bits a sender may set. get_extension compared the profile with
+    0x1000 exactly; under 0x1001 every element (MID, RID, ...) was invisible. Decided: the two-byte branch of
+    get_extension tests the profile under the mask 0xFFF0."""
+    r = RuleResult("R15.18", "K6", "two-byte header extensions are recognised for every appbits value")
+    b = ctx.body("rtp::RtpHeader::get_extension")
+    r.scope.append(b.name)
+    found = None
+    for sb in range(len(b.blocks)):
+        if sb in b.cleanup or b.blocks[sb]["t"]["k"] != "switch":
+            continue
+        term, outs = b.switch_info(sb)
+        if term[0] == "bin" and term[1] in ("Eq", "Ne") and mir.has_field(term, "profile") and 0x1000 in (mir.int_value(term[2]), mir.int_value(term[3])):
+            found = (sb, term)
+    if found is None:
+        raise core.CheckerError("R15.18: the two-byte profile test was not found in get_extension")
+    sb, term = found
+    other = term[2] if mir.int_value(term[3]) == 0x1000 else term[3]
+    masked = other[0] == "bin" and other[1] == "BitAnd" and 0xFFF0 in (mir.int_value(other[2]), mir.int_value(other[3]))
+    if masked:
+        r.ok({"site": b.where(sb), "test": mir.show(term, 80)})
+    else:
+        r.violate(b.name, "two-byte-profile:exact", b.where(sb),
+                  "the two-byte extension form is recognised only for profile 0x1000 exactly (%s): with non-zero appbits (0x1001 ..) the "
+                  "elements of a conforming packet are not found" % mir.show(term, 70))
+    return r
+
+
 def run(ctx):
-    return [r15_1(ctx), r15_2(ctx), r15_3(ctx), r15_4(ctx), r15_5(ctx), r15_6(ctx), r15_7(ctx), r15_8(ctx), r15_9(ctx), r15_10(ctx), r15_11(ctx), r15_12(ctx), r15_13(ctx), r15_14(ctx), r15_15(ctx), r15_16(ctx), r15_17(ctx)]
+    return [r15_1(ctx), r15_2(ctx), r15_3(ctx), r15_4(ctx), r15_5(ctx), r15_6(ctx), r15_7(ctx), r15_8(ctx), r15_9(ctx), r15_10(ctx), r15_11(ctx), r15_12(ctx), r15_13(ctx), r15_14(ctx), r15_15(ctx), r15_16(ctx), r15_17(ctx), r15_18(ctx)]
